@@ -137,6 +137,8 @@ def bucket_of(fail):
 
 def run_shard(args):
     prop_id, tier, seed, shard, nshards, examples, wall_budget = args
+    if nshards > 1:
+        core.die_with_parent()
     core.setup_imports()
     deadline_ts = time.time() + wall_budget      # counted from the moment this shard is ready to generate
     import hypothesis
